@@ -1519,9 +1519,17 @@ class AttrParser(BaseParser):
         if isinstance(type, AnyFloat):
             if is_hexadecimal_token:
                 assert isinstance(value, int)
-                raw = value.to_bytes(type.compile_time_size, "little")
+                try:
+                    raw = value.to_bytes(type.compile_time_size, "little")
+                except OverflowError:
+                    self.raise_error(
+                        f"hexadecimal float literal out of range for type {type}"
+                    )
                 return FloatAttr(next(type.iter_unpack(raw)), type)
-            return FloatAttr(float(value), type)
+            try:
+                return FloatAttr(float(value), type)
+            except OverflowError:
+                self.raise_error(f"float literal out of range for type {type}")
 
         if isa(type, IntegerType | IndexType):
             if isinstance(value, float):
